@@ -203,6 +203,15 @@ type s6World struct {
 	acks   int
 }
 
+// newS6World wraps a World for the daemon scenario. The daemon takes SQLite's write lock for
+// every sync on its own clock, so the application waits for the lock like a real one would.
+func newS6World(w0 *World) (*s6World, error) {
+	if _, err := w0.App.Exec(`PRAGMA busy_timeout=20000`); err != nil {
+		return nil, err
+	}
+	return &s6World{World: w0, hashes: map[int64]string{}}, nil
+}
+
 func (w *s6World) write(i int) error {
 	kinds := []string{"small", "multi", "big", "update", "small", "delete", "ddl"}
 	if err := w.AppWrite(kinds[i%len(kinds)]); err != nil {
@@ -262,7 +271,10 @@ func s6CountRun(run *vf.Run, seed int64) (int, error) {
 		return 0, err
 	}
 	defer w0.Close()
-	w := &s6World{World: w0, hashes: map[int64]string{}}
+	w, err := newS6World(w0)
+	if err != nil {
+		return 0, err
+	}
 	cfgPath := filepath.Join(base, "litestream.yml")
 	if err := os.WriteFile(cfgPath, []byte(s6Config(root)), 0o644); err != nil {
 		return 0, err
@@ -313,7 +325,11 @@ func runS6(run *vf.Run, s spec, dir string, res *vf.Result) *vf.Result {
 		return res
 	}
 	defer w0.Close()
-	w := &s6World{World: w0, hashes: map[int64]string{}}
+	w, err := newS6World(w0)
+	if err != nil {
+		res.HarnessErr = err.Error()
+		return res
+	}
 	cfgPath := filepath.Join(dir, "litestream.yml")
 	if err := os.WriteFile(cfgPath, []byte(s6Config(root)), 0o644); err != nil {
 		res.HarnessErr = err.Error()
